@@ -4,7 +4,7 @@ from bounded.corpus import corpus, BOUND_TEXT
 from bounded.harness import Ctx
 
 FAMILIES = ['sel', 'inc', 'con', 'conpart', 'conn', 'dvmet']
-SWEEP = ['theory-example', 'nested-3', 'inc-opt-opt-1', 'con-UNORDERED-perm-2x3', 'conn-cond-0', 'dv-3']
+SWEEP = ['theory-example', 'nested-3', 'inc-opt-opt-1', 'con-UNORDERED-perm-2x3', 'con-LINKED-perm-2x3', 'conn-cond-0', 'dv-3', 'dv-linked-discrete']
 
 
 def member(desc, tier, seed):
@@ -18,13 +18,26 @@ def run(tier='quick', seed=0):
         ctx = Ctx(None)
         dg = identitychecks.hashseed_sweep(SWEEP)
         seeds = sorted(dg)
+        import base64, pickle
+        from bounded import gen
+        allm = {d.label: d for d in corpus(['sel', 'inc', 'con', 'conn', 'dvmet'], 'quick')}
         for l in SWEEP:
-            vals = {dg[s][l] for s in seeds}
+            vals = {dg[s][l][0] for s in seeds}
             ctx.check('C18.same-in-other-process', len(vals) == 1, ['hashseed-sweep', l],
-                      f'digests over PYTHONHASHSEED {seeds}: {[dg[s][l] for s in seeds]}', (l, 'hashseed'))
+                      f'digests over PYTHONHASHSEED {seeds}: {[dg[s][l][0] for s in seeds]}', (l, 'hashseed'))
+            # the graph built in the other process, shipped by pickle, is recognised here as the same design space
+            mine = gen.Built(allm[l]).dsg
+            for s in seeds:
+                try:
+                    other = pickle.loads(base64.b64decode(dg[s][l][1]))
+                    ok = mine.is_same(other) and other.is_same(mine)
+                    ctx.check('C18.rebuilt-in-other-process-is-same', ok, ['hashseed-sweep', l, s],
+                              f'graph built with PYTHONHASHSEED={s} and unpickled here is not recognised as the same', (l, 'rebuilt', s))
+                except Exception as e:  # noqa
+                    ctx.check('C18.rebuilt-in-other-process-is-same', False, ['hashseed-sweep', l, s], f'{type(e).__name__}: {e}', (l, 'rebuilt', s))
         results.append(ctx.result())
     return harness.aggregate(
         results,
         rule='one evaluation = one clause on one (graph, edit | pickle | export | hash seed); non-trivial = distinct such case',
-        bound='; '.join(BOUND_TEXT[f] for f in FAMILIES) + '; single structural edits (add node, add node+edge, remove edge, remove node, add constraint, add start node); pickle of graph and processor with all vectors (<=64) re-decoded; DOT and GML export; thorough: 6 graphs x PYTHONHASHSEED 1,2,3 in subprocesses (configuration sweep, not a proof over processes)',
+        bound='; '.join(BOUND_TEXT[f] for f in FAMILIES) + '; single structural edits (add node, add node+edge, remove edge, remove node, add constraint, add start node); pickle of graph and processor with all vectors (<=64) re-decoded; DOT and GML export; rebuild from the same description in the same process; thorough: 8 graphs x PYTHONHASHSEED 1,2,3 built in subprocesses, digests of variables and vector->architecture mapping compared and the pickled graph compared here with is_same (configuration sweep, not a proof over processes)',
         assumptions=['hash collisions make "unequal after an edit" false in principle; only observed on the bounded corpus'])
